@@ -16,7 +16,11 @@
 
 package cluster
 
-import "github.com/tikv/pd/server/core"
+import (
+	"github.com/tikv/pd/server/core"
+	"github.com/tikv/pd/server/schedule"
+	"github.com/tikv/pd/server/schedule/hbstream"
+)
 
 // VerifProcessRegionHeartbeat drives processRegionHeartbeat without a coordinator.
 func (c *RaftCluster) VerifProcessRegionHeartbeat(region *core.RegionInfo) error {
@@ -34,4 +38,13 @@ func (c *RaftCluster) VerifSetRunning(v bool) {
 	c.Lock()
 	defer c.Unlock()
 	c.running = v
+}
+
+// VerifSetCoordinator gives the cluster a coordinator that is not running (no patrol, no
+// schedulers), so that HandleRegionHeartbeat can be driven; it returns the operator controller.
+func (c *RaftCluster) VerifSetCoordinator(hbStreams *hbstream.HeartbeatStreams) *schedule.OperatorController {
+	c.Lock()
+	defer c.Unlock()
+	c.coordinator = newCoordinator(c.ctx, c, hbStreams)
+	return c.coordinator.opController
 }
